@@ -23,7 +23,10 @@ type ScopeSpec struct {
 }
 
 type Op struct {
-	K     string `json:"k"` // record pass stopwatch hstopwatch exec
+	K     string `json:"k"` // record pass stopwatch hstopwatch exec close reobtain
+	// close: Close() the scope of timer T (subscopes only; the handle is kept and used further);
+	// reobtain: ask that scope handle - closed or not - for timer T again (a new name after a close
+	// included) and use the returned handle from now on
 	T     int    `json:"t,omitempty"`
 	D     int64  `json:"d,omitempty"`
 	Pause int    `json:"pause,omitempty"` // microseconds
@@ -63,7 +66,7 @@ func gen(t *rapid.T) Case {
 	no := rapid.IntRange(1, 16).Draw(t, "nops")
 	slow := 0
 	for i := 0; i < no; i++ {
-		k := rapid.SampledFrom([]string{"record", "record", "record", "record", "pass", "pass", "stopwatch", "hstopwatch", "exec"}).Draw(t, "k")
+		k := rapid.SampledFrom([]string{"record", "record", "record", "record", "pass", "pass", "stopwatch", "hstopwatch", "exec", "close", "reobtain", "reobtain"}).Draw(t, "k")
 		op := Op{K: k, T: rapid.IntRange(0, nt-1).Draw(t, "t")}
 		switch k {
 		case "record":
@@ -140,6 +143,8 @@ func run(c Case) (pbt.Outcome, error) {
 	distinctTimers := map[string]bool{}
 	passBetween := false
 	sawRecord := false
+	closedAny := false
+	closedScope := map[int]bool{}
 	for oi, op := range c.Ops {
 		before := log.Len()
 		switch op.K {
@@ -163,6 +168,22 @@ func run(c Case) (pbt.Outcome, error) {
 					}
 				}
 			}
+		case "close":
+			si := c.Timers[op.T].Scope
+			if c.Scopes[si].Sub == "" && c.Scopes[si].Tags == nil {
+				continue // the root's Close is C08's subject
+			}
+			if cl, ok := scopes[si].(interface{ Close() error }); ok {
+				_ = cl.Close()
+				closedAny = true
+				for j := range scopes {
+					if scopes[j] == scopes[si] {
+						closedScope[j] = true // several specs may denote the same scope object
+					}
+				}
+			}
+		case "reobtain":
+			timers[op.T] = scopes[c.Timers[op.T].Scope].Timer(string(c.Timers[op.T].Name))
 		case "pass":
 			if c.Mode != "test" {
 				tally.VerifReportOnce(root)
@@ -203,6 +224,9 @@ func run(c Case) (pbt.Outcome, error) {
 				}
 			}
 		case "hstopwatch":
+			if closedScope[c.Timers[op.T].Scope] {
+				continue // counters and histogram samples recorded on a closed scope are don't-care (C07); only timers forward immediately
+			}
 			if c.Mode == "test" || c.Mode == "both" {
 				continue
 			}
@@ -236,6 +260,9 @@ func run(c Case) (pbt.Outcome, error) {
 				}
 			}
 		case "exec":
+			if closedScope[c.Timers[op.T].Scope] {
+				continue // counters and histogram samples recorded on a closed scope are don't-care (C07); only timers forward immediately
+			}
 			if c.Mode == "test" {
 				continue
 			}
@@ -311,13 +338,16 @@ func run(c Case) (pbt.Outcome, error) {
 	}
 	out.NonTrivial = len(distinctTimers) >= 2 && (passBetween || c.Mode == "test")
 	out.Classes = append(out.Classes, c.Mode)
+	if closedAny {
+		out.Classes = append(out.Classes, "recording-after-subscope-close")
+	}
 	return out, errs.Err()
 }
 
 func TestC10(t *testing.T) {
 	pbt.Main(t, pbt.Prop[Case]{
 		ID: "C10", Name: "timers",
-		Rule: "rapid-generated histories (1..16 ops) over 1..4 timers in 1..3 derived scopes: Record(d) with int64-extreme/zero/negative durations, report passes, timer stopwatches and duration-histogram stopwatches with 0..1.5 ms pauses (rationed), instrument.Call.Exec with succeeding/failing functions; plain reporter, cached reporter, both configured at once, or a reporter-less test scope. Oracle: exactly one timer delivery inside each Record call with d, name, tags (through the handle when cached); passes deliver no timers; snapshot shows all values in order; stopwatch value bracketed by harness monotonic clock readings taken around Start/Stop; Exec: one call, same error, one latency, exactly one of success/error +1. Non-trivial: >=2 distinct timers used and a report pass between records (or snapshot mode). Distinct: FNV-64 of the case JSON.",
+		Rule: "(histories also Close the subscope of a timer and keep recording through old handles and through handles obtained from the closed scope afterwards: still exactly one delivery per Record) rapid-generated histories (1..16 ops) over 1..4 timers in 1..3 derived scopes: Record(d) with int64-extreme/zero/negative durations, report passes, timer stopwatches and duration-histogram stopwatches with 0..1.5 ms pauses (rationed), instrument.Call.Exec with succeeding/failing functions; plain reporter, cached reporter, both configured at once, or a reporter-less test scope. Oracle: exactly one timer delivery inside each Record call with d, name, tags (through the handle when cached); passes deliver no timers; snapshot shows all values in order; stopwatch value bracketed by harness monotonic clock readings taken around Start/Stop; Exec: one call, same error, one latency, exactly one of success/error +1. Non-trivial: >=2 distinct timers used and a report pass between records (or snapshot mode). Distinct: FNV-64 of the case JSON.",
 		Gen:  gen, Run: run,
 	})
 }
